@@ -170,6 +170,12 @@ def judge(ctx, raw, name, timeout=3000):
     return findings
 
 
+def n_elements(case):
+    k = case["kind"]
+    return {"point": len(case["verts"]), "line": len(case["idx"]) - 1, "tri": len(case["idx"]) // 3,
+            "bvhtri": len(case["idx"]) // 3, "box": len(case["idx"]) // 2, "sphere": len(case["sph"])}[k]
+
+
 def reduced_case(case, k, entry):
     """The case with only the failing query (entry is 1-based; 0 = the build itself)."""
     c = dict(case)
@@ -236,20 +242,43 @@ STAT_KEYS = ["trees", "trees_with_children", "trees_depth2plus", "trees_cell_wit
              "near_several_candidates", "hit", "hit_hit", "hit_several_candidates"]
 
 
-def report(ctx, vh, cases, findings):
+def report(ctx, vh, cases, findings, confirm=True):
+    """One violation per (signature, case), at most 3 cases per signature; every reported case is first
+    re-executed in reduced form (only the failing query) and re-judged: the replay file holds what reproduces."""
     by_id = {c["id"]: c for c in cases}
+    picked, per_sig = [], {}
     for f in findings:
         if f["pred"].startswith("Harness."):
             raise core.Infra("harness inconsistency %s in case %d (%s line, entries %s)" %
                              (f["pred"], f["case"], f["k"], f["entries"][:5]))
-        case = by_id[f["case"]]
         sig = "%s/%s/%s" % (f["pred"], OPS.get(f["pred"], f["k"]), f["kind"])
-        entry = f["entries"][0]
-        red = reduced_case(case, f["k"], entry)
-        what = "%s rejected %s on a %s element set (%d elements, depth %s, tag %s), query #%d of %d failing" % (
-            f["pred"], OPS.get(f["pred"], f["k"]), f["kind"],
-            len(case["sph"]) if f["kind"] == "sphere" else max(1, len(case["idx"]) // {"tri": 3, "bvhtri": 3, "box": 2}.get(f["kind"], 1)),
-            case["depth"], case.get("tag"), entry, len(f["entries"]))
+        if per_sig.get(sig, 0) >= 3:
+            continue
+        per_sig[sig] = per_sig.get(sig, 0) + 1
+        picked.append((sig, f))
+    if not picked:
+        return
+    reduced = []
+    for n, (sig, f) in enumerate(picked):
+        red = reduced_case(by_id[f["case"]], f["k"], f["entries"][0])
+        reduced.append(red)
+    reproduced = set()
+    if confirm:
+        raw = execute(ctx, vh, reduced, "confirm")
+        for g in judge(ctx, raw, "confirm"):
+            reproduced.add((g["case"], g["pred"]))
+    for (sig, f), red in zip(picked, reduced):
+        case = by_id[f["case"]]
+        if confirm and (f["case"], f["pred"]) not in reproduced:
+            # the reduced case does not show it: try the whole case once more before giving up
+            raw = execute(ctx, vh, [case], "confirm-full")
+            if not any(g["pred"] == f["pred"] for g in judge(ctx, raw, "confirm-full")):
+                raise core.Infra("rejection %s of case %d does not reproduce on re-execution" % (sig, f["case"]))
+            red = case
+        nel = n_elements(case)
+        what = "%s rejected %s on a %s element set (%d elements, depth %s, tag %s); query #%d is the first of %d rejected" % (
+            f["pred"], OPS.get(f["pred"], f["k"]), f["kind"], nel, case["depth"], case.get("tag"),
+            f["entries"][0], len(f["entries"]))
         ctx.violation(sig, what, {"family": "spatial", "pred": f["pred"], "case": red, "seed": ctx.seed})
 
 
@@ -405,7 +434,7 @@ def replay(ctx, path):
     findings = judge(ctx, raw, "replay")
     for f in findings:
         print("replay: %s on %s line (entries %s)" % (f["pred"], f["k"], f["entries"][:5]))
-    report(ctx, vh, [case], findings)
+    report(ctx, vh, [case], findings, confirm=False)
     ctx.traces = 1
     ctx.evaluations = len(raw)
     ctx.nontrivial = 1
